@@ -14,6 +14,7 @@ def machine : Machine Nat Unit where
   op c args :=
     match args with
     | ["shape"] => (c, "shape rmw add=1 static=1")
+    | ["wraplife"] => (c, "w=64 reused=0")   -- 2^64 + 1 allocations are needed (`C03.wrapping_reuse`)
     | ["wrap", d, n] =>
       match d.toNat?, n.toNat? with
       | some d, some n =>
@@ -40,6 +41,8 @@ def machine : Machine Nat Unit where
   spec _ args outs :=
     match args with
     | ["shape"] => ((), if _root_.C03.specShape outs then "ok" else "FAIL:alloc_shape")
+    | ["wraplife"] =>
+      ((), if outs.contains "reused=0" then "ok" else "FAIL:id_reused_after_wrap")
     | "wrap" :: _ =>
       match outs with
       | [_, ids] =>
